@@ -14,8 +14,92 @@ fn rel(p: Option<&str>, q: Option<&str>, f: Option<&str>) -> RelativeDIDUrl {
   r.set_path(p).unwrap(); r.set_query(q).unwrap(); r.set_fragment(f).unwrap();
   r
 }
+// ---- W3C DID URL syntax (did-core 3.2 / RFC 3986), written independently of the code ----
+fn unreserved(c: char) -> bool { c.is_ascii_alphanumeric() || matches!(c, '-' | '.' | '_' | '~') }
+fn sub_delim(c: char) -> bool { matches!(c, '!' | '$' | '&' | '\'' | '(' | ')' | '*' | '+' | ',' | ';' | '=') }
+/// every character is `ok` or starts a pct-encoded triple "%" HEXDIG HEXDIG
+fn grammatical(s: &str, ok: impl Fn(char) -> bool) -> bool {
+  let b: Vec<char> = s.chars().collect();
+  let mut i = 0;
+  while i < b.len() {
+    if b[i] == '%' { if i + 2 >= b.len() || !b[i + 1].is_ascii_hexdigit() || !b[i + 2].is_ascii_hexdigit() { return false; } i += 3; }
+    else if ok(b[i]) { i += 1 } else { return false; }
+  }
+  true
+}
+fn pchar(c: char) -> bool { unreserved(c) || sub_delim(c) || c == ':' || c == '@' }
+fn path_ok(p: &str) -> bool { p.is_empty() || (p.starts_with('/') && grammatical(p, |c| pchar(c) || c == '/')) }
+fn query_ok(q: &str) -> bool { grammatical(q, |c| pchar(c) || c == '/' || c == '?') }
+/// D5 (open, dependency): did_url_parser 0.3.0 skips one character after every %XX triple - it PANICS when the triple ends
+/// the input and swallows a '?' / '#' delimiter that follows a triple (so such a value does not re-parse)
+fn d5_input(s: &str) -> bool {
+  let b: Vec<char> = s.chars().collect();
+  (0..b.len()).any(|i| b[i] == '%' && i + 2 < b.len() && u8::from_str_radix(&b[i + 1..i + 3].iter().collect::<String>(), 16).is_ok()
+    && (i + 3 == b.len() || matches!(b[i + 3], '?' | '#' | '/')))
+}
+fn all_strings(alphabet: &[char], max: usize, mut f: impl FnMut(&str) -> Result<(), String>) -> Result<u32, String> {
+  let mut cur: Vec<usize> = vec![];
+  let mut n = 0;
+  loop {
+    let mut k = cur.len();
+    loop {
+      if k == 0 { cur = vec![0; cur.len() + 1]; break; }
+      k -= 1;
+      if cur[k] + 1 < alphabet.len() { cur[k] += 1; for j in k + 1..cur.len() { cur[j] = 0; } break; }
+    }
+    if cur.len() > max { return Ok(n); }
+    let s: String = cur.iter().map(|&i| alphabet[i]).collect();
+    f(&s)?; n += 1;
+  }
+}
+/// C10 as a bounded exhaustive check: whatever DIDUrl::parse accepts is reproduced verbatim, decomposes, and each
+/// component is grammatical; whatever a setter / join accepts re-parses to itself, whatever it rejects changes nothing
+fn small_scope_accepted_implies_grammatical() -> Result<(), String> {
+  let alphabet = ['a', 'G', '1', '%', '4', '/', '?', '#', ' ', '{', '\u{e9}', ':', '+', '~'];
+  let n = all_strings(&alphabet, 4, |t| {
+    let input = format!("did:example:x{t}");
+    if !d5_input(&input) {
+      if let Ok(u) = DIDUrl::parse(&input) {
+        if u.to_string() != input { return Err(format!("parse({input:?}) prints {:?}", u.to_string())); }
+        let (p, q, f) = (u.path().unwrap_or(""), u.query(), u.fragment());
+        let re = format!("{}{}{}{}", u.did(), p, q.map(|x| format!("?{x}")).unwrap_or_default(), f.map(|x| format!("#{x}")).unwrap_or_default());
+        if re != input { return Err(format!("parse({input:?}): components re-concatenate to {re:?}")); }
+        if !path_ok(p) || !q.map_or(true, query_ok) || !f.map_or(true, query_ok) { return Err(format!("parse({input:?}) accepted with path {p:?} query {q:?} fragment {f:?}")); }
+        if !grammatical(identity_did::DID::method_id(u.did()), |c| c.is_ascii_alphanumeric() || matches!(c, '.' | '-' | '_' | ':')) { return Err(format!("parse({input:?}) accepted with method id {:?}", identity_did::DID::method_id(u.did()))); }
+      }
+    }
+    // setters on a fixed base value
+    for which in 0..4 {
+      let mut u = DIDUrl::parse("did:example:x/p?q#f").map_err(|e| e.to_string())?;
+      let before = u.to_string();
+      let r = match which { 0 => u.set_path(Some(t)).is_ok(), 1 => u.set_query(Some(t)).is_ok(), 2 => u.set_fragment(Some(t)).is_ok(),
+        _ => { if d5_input(&format!("{before}{t}")) || d5_input(t) { return Ok(()); } match u.join(t) { Ok(j) => { u = j; true } Err(_) => false } } };
+      let after = u.to_string();
+      if !r { if after != before { return Err(format!("rejected operation {which} with {t:?} changed the value to {after:?}")); } continue; }
+      if d5_input(&after) { continue; }
+      match DIDUrl::parse(&after) {
+        Ok(v) if v == u && v.to_string() == after => {}
+        other => return Err(format!("operation {which} with {t:?} accepted, giving {after:?}, which re-parses to {:?}", other.map(|v| v.to_string()))),
+      }
+      let (p, q, f) = (u.path().unwrap_or(""), u.query(), u.fragment());
+      if !path_ok(p) || !q.map_or(true, query_ok) || !f.map_or(true, query_ok) { return Err(format!("operation {which} with {t:?} accepted, giving path {p:?} query {q:?} fragment {f:?}")); }
+    }
+    Ok(())
+  })?;
+  if n < 40_000 { return Err(format!("only {n} strings enumerated")); }
+  Ok(())
+}
+
 fn main() {
   std::panic::set_hook(Box::new(|_| {}));
+  w("du_small_scope_accepted_implies_grammatical", small_scope_accepted_implies_grammatical);
+  // D5 (open, dependency): a percent triple directly before '#' / '?' / end makes did_url_parser swallow the delimiter
+  w("du_percent_triple_before_delimiter", || {
+    let mut u = DIDUrl::parse("did:example:x/p?q#f").map_err(|e| e.to_string())?;
+    u.set_query(Some("%41")).map_err(|e| format!("set_query(%41): {e}"))?;
+    let text = u.to_string();
+    match DIDUrl::parse(&text) { Ok(v) if v == u => Ok(()), other => Err(format!("set_query(\"%41\") gives {text:?}, which re-parses to {:?}", other.map(|v| v.to_string()))) }
+  });
   w("du_order_is_lexicographic_and_consistent_with_eq", || {
     let parts = [None, Some("a"), Some("b")];
     let mut all = vec![];
